@@ -1010,7 +1010,7 @@ for _pkg in ('numpy', 'jax.numpy'):
 # ------------------------------------------------------------------------------------------ dtype casts: float32 is a rounding function, not the identity
 # A Python float / np.float64 *is* the real it denotes (XReal), so a cast to float64 is the identity on floats and exact on the ints of the
 # model (|i| <= 2^53).  A cast to float32 (np.asarray(..., dtype=np.float32), .astype(np.float32), np.float32(x)) is the uninterpreted
-# rounding function r32: monotone, idempotent (is32(r32 x); is32 x => r32 x = x), exact on integers of magnitude <= 2^24, sign preserving,
+# rounding function r32: monotone, idempotent (structurally: a value that already is an r32 application is not cast again), exact on integers of magnitude <= 2^24, sign preserving,
 # and NOT the identity.  (Overflow of a finite double to float32 inf is not modelled.)
 R32_ASSUMPTION = ('a cast to float32 is an uninterpreted rounding function r32 (monotone, idempotent, exact on integers |i| <= 2^24, sign preserving; not '
                   'the identity; overflow to inf not modelled); a cast to float64 is the identity on floats and exact on ints |i| <= 2^53')
@@ -1025,10 +1025,10 @@ def r32_axioms(run):
     run._r32_axioms = True
     run.assumed.add(R32_ASSUMPTION)
     a, b = z3.Reals('a!r32 b!r32')
-    run.axiom(z3.ForAll([a], z3.And(is32(r32(a)),
-                                    z3.Implies(z3.And(z3.IsInt(a), a <= TWO24, a >= -TWO24), r32(a) == a),
+    # (idempotence is structural -- cast32 of a term that already is an r32 application returns it -- so that no quantified axiom creates
+    # new r32 terms: no matching loops)
+    run.axiom(z3.ForAll([a], z3.And(z3.Implies(z3.And(z3.IsInt(a), a <= TWO24, a >= -TWO24), r32(a) == a),
                                     z3.Implies(a >= 0, r32(a) >= 0), z3.Implies(a <= 0, r32(a) <= 0)), patterns=[r32(a)]))
-    run.axiom(z3.ForAll([a], z3.Implies(is32(a), r32(a) == a), patterns=[is32(a)]))
     run.axiom(z3.ForAll([a, b], z3.Implies(a <= b, r32(a) <= r32(b)), patterns=[z3.MultiPattern(r32(a), r32(b))]))
 
 
@@ -1037,7 +1037,9 @@ def cast32(it, x):
     run = it.run
     run.assumed.add(R32_ASSUMPTION)
     x = xl(x)
-    t = xreal.r(x)
+    t = z3.simplify(xreal.r(x))
+    if z3.is_app(t) and t.decl().eq(r32):
+        return x if not z3.is_app(x) or x.decl().name() != 'fin' else x        # already a float32 value: the cast is idempotent
     out = z3.If(xreal.is_fin(x), xreal.fin(r32(t)), x)
     if not _ground(t) or it.pure:
         r32_axioms(run)       # an application under a bound variable (array over a symbolic index): the quantified contract is needed
@@ -1046,7 +1048,7 @@ def cast32(it, x):
         apps = run.__dict__.setdefault('r32_apps', [])
         if not any(s.eq(t) for s in apps):
             rt = r32(t)
-            run.assume(z3.And(is32(rt), z3.Implies(z3.And(z3.IsInt(t), t <= TWO24, t >= -TWO24), rt == t),
+            run.assume(z3.And(z3.Implies(z3.And(z3.IsInt(t), t <= TWO24, t >= -TWO24), rt == t),
                               z3.Implies(t >= 0, rt >= 0), z3.Implies(t <= 0, rt <= 0)))
             for s in apps:
                 run.assume(z3.And(z3.Implies(s <= t, r32(s) <= rt), z3.Implies(t <= s, rt <= r32(s))))
